@@ -228,6 +228,8 @@ def check_case(case):
 
     try:
         kind = case["kind"]
+        if core.pick([case, "prior"], 4) == 0:
+            other_plots()
         if kind in ("lineplot", "scatter"):
             r = check_lines(case)
         elif kind.startswith("auto_"):
@@ -239,6 +241,34 @@ def check_case(case):
     finally:
         plt.close("all")
     return r
+
+
+def other_plots():
+    """a fixed series of unrelated plots with assorted options, drawn in the
+    same process before the plot that is judged (every plot is to be drawn
+    from its own arguments only)"""
+    import numpy as np
+    import xarray as xr
+    import xyzpy as xyz
+    import matplotlib.pyplot as plt
+
+    ds = xr.Dataset({"w": (("p", "q"), np.array([[1.0, 4.0], [2.0, 8.0],
+                                                   [5.0, 16.0]])),
+                     "e": (("p", "q"), np.full((3, 2), 0.5))},
+                    coords={"p": [1.0, 2.0, 3.0], "q": [7, 9]})
+    with core.Silence():
+        xyz.lineplot(ds, "p", "w", "q", colors=True, colormap="viridis",
+                     colormap_reverse=True, markers=True, xlog=True,
+                     ylog=True, legend=False, vmin=-3.0, vmax=50.0,
+                     y_err="e", return_fig=True)
+        xyz.scatter(ds, "p", "w", "q", colors=["black", "orange"],
+                    markers=False, xlims=(0, 9), ylims=(0, 99),
+                    return_fig=True)
+        xyz.heatmap(ds, "p", "q", "w", colormap="coolwarm", colormap_log=True,
+                    vmin=0.5, vmax=99.0, colorbar=False, return_fig=True)
+        xyz.histogram(ds, "w", "q", bins=3, stacked=True,
+                      colors=["green", "red"], return_fig=True)
+    plt.close("all")
 
 
 def call_plot(key, fn, *a, **kw):
